@@ -16,9 +16,9 @@ LEVEL_TEXT = ("HlsSession.tla models sessions (secret -> path, IP, created by an
               "streams and a path manager driven by the real auth.Manager; after every step media playlist / segment / part "
               "requests with every secret source (cookie, query, none, unknown, other session), IP and Authorization are sent and "
               "TLC evaluates the statement on the observed trace")
-LEVEL_NOTE = ("bounded: 2 sessions per behaviour, 2 paths + 1 without stream, 2 client IPs (X-Forwarded-For through the trusted "
-              "proxy), 6 credentials; probes per step are sampled; idle expiry is forced by ageing the session's last-request time "
-              "in-package and waiting for the muxer's real cleanup; hlsAlwaysRemux only; quick tier replays a subset of the walks")
+LEVEL_NOTE = ("bounded: 2 sessions per behaviour, 2 paths + 1 without stream, 6 client IPs incl. textual-prefix pairs, IPv4 and IPv6 (X-Forwarded-For through the "
+              "trusted proxy), 6 credentials; probes per step are sampled; idle expiry is forced by ageing the session's last-request time "
+              "in-package and waiting for the muxer's real cleanup; hlsAlwaysRemux only; both tiers replay a subset of the edge-covering walks (quick 140, thorough 1000)")
 TECHNIQUE = "TLA+ model (TLC): exhaustive bounded MC + edge-covering walks replayed on the real code + trace validation"
 
 PKG = "./internal/servers/hls/"
@@ -31,7 +31,7 @@ INVARIANTS ServedOnlyToSessions SessionsAdmitted TypeOK
 CHECK_DEADLOCK FALSE
 """
 PATHS = ["cam1", "other", "ghost"]
-IPS = ["10.0.0.5", "10.0.1.5"]
+IPS = ["10.0.0.1", "10.0.0.12", "10.0.0.123", "10.0.1.5", "2001:db8::1", "2001:db8::12"]
 KINDS = ["playlist", "segment", "part"]
 
 
@@ -82,7 +82,8 @@ def run(ctx):
         for cdn in ("TRUE", "FALSE"):
             cfg = "HlsSession_mc_%s.cfg" % cdn
             with open(d + "/" + cfg, "w") as fh:
-                fh.write(CFG % ("Spec", maxs, cdn, "TRUE"))
+                # the invariant quantifies over every request in every state: the state-changing actions suffice
+                fh.write(CFG % ("SpecCtl", maxs, cdn, "TRUE"))
             jobs["mc" + cdn] = (cfg, [])
             cfg = "HlsSession_gen_%s.cfg" % cdn
             with open(d + "/" + cfg, "w") as fh:
@@ -122,10 +123,10 @@ def run(ctx):
 
     rnd = random.Random(int(ctx.seed) * 104729 + 43)
     walks, edges_total, edges_covered, n_expire, n_cut, n_steps = [], 0, 0, 0, 0, 0
-    expire_budget = ctx.pick(24, 100000)
+    expire_budget = ctx.pick(24, 600)
     for cdn in ("TRUE", "FALSE"):
         ws, covered, total = walk.edge_cover(graphs[cdn], maxlen=ctx.pick(14, 16), seed=int(ctx.seed),
-                                             limit=ctx.pick(70, None))
+                                             limit=ctx.pick(70, 500))
         edges_total += total
         edges_covered += covered
         for w in ws:
@@ -142,7 +143,7 @@ def run(ctx):
             n_expire += ne
             n_steps += len(steps)
             for i, s in enumerate(steps):
-                s["probes"] = _probes(rnd, ctx.pick(6, 24), i)
+                s["probes"] = _probes(rnd, ctx.pick(6, 12), i)
             wid = len(walks) + 1
             walks.append({"walk": wid, "cdnConf": cdn == "TRUE", "variant": ["lowLatency", "mpegts", "fmp4"][wid % 3],
                           "cookie": wid % 2 == 0, "steps": steps})
